@@ -140,10 +140,8 @@ func Judge(s *Sim) []Violation {
 	}
 	for _, p := range s.Problems {
 		prop := "C16"
-		if strings.HasPrefix(p, "C12") {
-			prop = "C12"
-		} else if strings.HasPrefix(p, "C19") {
-			prop = "C19"
+		if len(p) > 3 && p[0] == 'C' && p[1] >= '0' && p[1] <= '9' && p[2] >= '0' && p[2] <= '9' && p[3] == ' ' {
+			prop = p[:3]
 		}
 		j.add(prop, "harness", "", "%s", p)
 	}
